@@ -53,6 +53,10 @@ def configs(tier, seed):
     for k in ("semi-adapted", "fully-adapted", "bootstrap"):
         add(n=2, kernel=k, wiring="library", outlier_prior=0.2, N=2, threshold=0.5, alpha=0.5, warm_other_alpha=2.9)
         add(n=3, kernel=k, wiring="library", outlier_prior=0.0, N=2, threshold=0.5, alpha=0.5, warm_other_alpha=2.9, grid=3)
+    # the run loop's sampler set after its burn-in passes (one kernel object serves the burn-in, tree and subtree samplers)
+    for k in KERNELS:
+        add(n=2, kernel=k, wiring="run", outlier_prior=0.2, N=2, threshold=0.5, alpha=1.0, after_burnin=True)
+        add(n=3, kernel=k, wiring="run", outlier_prior=0.0, N=2, threshold=0.5, alpha=1.3, after_burnin=True, grid=3)
     # n = 4 once in the quick tier: the smallest size at which a clone can have two children one of
     # which has descendants (the shape several order-counting defects need)
     add(n=4, kernel="fully-adapted", wiring="library", outlier_prior=0.0, N=2, threshold=0.5, alpha=1.0, grid=3)
